@@ -46,7 +46,11 @@ func genTopVal(t *rapid.T, label string) topVal {
 		return topVal{"bool", v, it, func(b []byte) (bool, error) { var o bool; err := rlp.DecodeBytes(b, &o); return o == v, err }}
 	case 4:
 		v := rapid.SliceOfN(rapid.Byte(), 0, 70).Draw(t, label+"_bytes")
-		return topVal{"bytes", v, &ref.Item{Str: v}, func(b []byte) (bool, error) { var o []byte; err := rlp.DecodeBytes(b, &o); return bytes.Equal(o, v), err }}
+		return topVal{"bytes", v, &ref.Item{Str: v}, func(b []byte) (bool, error) {
+			var o []byte
+			err := rlp.DecodeBytes(b, &o)
+			return bytes.Equal(o, v), err
+		}}
 	case 5:
 		v := rapid.StringN(0, 60, 60).Draw(t, label+"_string")
 		return topVal{"string", v, &ref.Item{Str: []byte(v)}, func(b []byte) (bool, error) { var o string; err := rlp.DecodeBytes(b, &o); return o == v, err }}
@@ -56,17 +60,29 @@ func genTopVal(t *rapid.T, label string) topVal {
 		return topVal{"[20]byte", v, &ref.Item{Str: v[:]}, func(b []byte) (bool, error) { var o [20]byte; err := rlp.DecodeBytes(b, &o); return o == v, err }}
 	case 7:
 		v := new(big.Int).SetBytes(rapid.SliceOfN(rapid.Byte(), 0, 40).Draw(t, label+"_big"))
-		return topVal{"*big.Int", v, &ref.Item{Str: v.Bytes()}, func(b []byte) (bool, error) { o := new(big.Int); err := rlp.DecodeBytes(b, o); return o.Cmp(v) == 0, err }}
+		return topVal{"*big.Int", v, &ref.Item{Str: v.Bytes()}, func(b []byte) (bool, error) {
+			o := new(big.Int)
+			err := rlp.DecodeBytes(b, o)
+			return o.Cmp(v) == 0, err
+		}}
 	case 8:
 		inner := &ref.Item{Str: rapid.SliceOfN(rapid.Byte(), 2, 60).Draw(t, label+"_rawstr")}
 		if inner.Str[0] == 0 {
 			inner.Str[0] = 1
 		}
 		raw := rlp.RawValue(ref.RLPEncode(inner))
-		return topVal{"RawValue", raw, inner, func(b []byte) (bool, error) { var o rlp.RawValue; err := rlp.DecodeBytes(b, &o); return bytes.Equal(o, raw), err }}
+		return topVal{"RawValue", raw, inner, func(b []byte) (bool, error) {
+			var o rlp.RawValue
+			err := rlp.DecodeBytes(b, &o)
+			return bytes.Equal(o, raw), err
+		}}
 	default:
 		v, tr := genInner(t)
-		return topVal{"struct", &v, tr, func(b []byte) (bool, error) { var o Inner; err := rlp.DecodeBytes(b, &o); return eqInner(&v, &o) == "", err }}
+		return topVal{"struct", &v, tr, func(b []byte) (bool, error) {
+			var o Inner
+			err := rlp.DecodeBytes(b, &o)
+			return eqInner(&v, &o) == "", err
+		}}
 	}
 }
 
@@ -214,5 +230,60 @@ func TestRecursiveTypes(t *testing.T) {
 			key = fmt.Sprintf("rec:%x:%x", want, wantT)
 		}
 		stats.Case(key, "A_recursive_types")
+	})
+}
+
+// TestLongStringsInScalarSlots: well-formed items in which a slot that the node's types fill with an integer, a
+// bool or a fixed-size array holds a byte string far longer than the slot can take - lengths around the multiples
+// of 256 (256q + m, m = 0..9), so that a length handled in a narrower integer somewhere would look like a legal
+// short one. The string starts with what would be a canonical m-byte integer and continues with bytes that would
+// each parse as an element. The input is canonical RLP, so a target may only accept it if it re-encodes to exactly
+// these bytes (checkBytes); integer / bool / array slots must refuse it.
+func TestLongStringsInScalarSlots(t *testing.T) {
+	stats.Check(t, 1500, 20000, func(t *rapid.T) {
+		q := rapid.SampledFrom([]int{1, 1, 2, 3, 16, 255, 256}).Draw(t, "q")
+		m := rapid.IntRange(0, 9).Draw(t, "m")
+		l := 256*q + m
+		s := make([]byte, l)
+		fill := rapid.SampledFrom([]byte{0x01, 0x05, 0x7f, 0x80, 0xc0}).Draw(t, "fill")
+		for i := range s {
+			s[i] = fill
+		}
+		if m > 0 {
+			s[0] = byte(rapid.IntRange(0x80, 0xff).Draw(t, "lead")) // a canonical m-byte integer starts with a non-zero byte (>= 0x80 when alone)
+		}
+		item := ref.B(s)
+		var tr *ref.Item
+		switch rapid.IntRange(0, 3).Draw(t, "where") {
+		case 0:
+			tr = item
+		case 1:
+			tr = ref.L(item)
+		case 2:
+			tr = ref.L(uintItem(uint64(rapid.IntRange(0, 300).Draw(t, "before"))), item)
+		default:
+			var list []*ref.Item
+			for i, n := 0, rapid.IntRange(0, 8).Draw(t, "pos"); i < n; i++ {
+				list = append(list, uintItem(uint64(rapid.IntRange(1, 0x7f).Draw(t, "sib"))))
+			}
+			list = append(list, item)
+			for i, n := 0, rapid.IntRange(0, 3).Draw(t, "after"); i < n; i++ {
+				list = append(list, uintItem(uint64(rapid.IntRange(1, 0x7f).Draw(t, "sibAfter"))))
+			}
+			tr = ref.L(list...)
+		}
+		b := ref.RLPEncode(tr)
+		checkBytes(t, b, fmt.Sprintf("long_string_in_scalar_slot_mod256_%d", m))
+		for _, tg := range []string{"[]uint64", "[2]uint32", "uint64", "bool"} {
+			for _, x := range targets {
+				if x.name != tg {
+					continue
+				}
+				v := x.mk()
+				if err, p := safe(func() error { return rlp.DecodeBytes(b, v) }); err == nil && p == nil {
+					t.Fatalf("DecodeBytes accepted a %d-byte string (256*%d+%d) where %s has room for at most 8 bytes: %x...", l, q, m, tg, b[:min(len(b), 24)])
+				}
+			}
+		}
 	})
 }
